@@ -59,6 +59,10 @@ class Rule:
 
             # strip final new lines:
             for key in ("description", "examples"):
+                if not isinstance(doc[key], list):
+                    raise MalformedRuleSpec(
+                        f"Rule doc {key} must be a list of strings, but found: {doc[key]!r}."
+                    )
                 for idx, item in enumerate(doc[key]):
                     if not isinstance(item, str):
                         raise MalformedRuleSpec(
